@@ -43,11 +43,14 @@ func (c Cipher) DecryptReader(key []byte, stream filesystem.Reader) (reader file
 		p          = make([]byte, 4)
 		fileCipher cipherfs.Cipher
 	)
+	// the stream is ours to close when it is rejected here (the caller only gets the error)
 	if _, err = io.ReadFull(stream, p); err != nil {
+		stream.Close()
 		return nil, err
 	}
 	ckey = NewCipherKey(p)
 	if fileCipher = c.mapping[ckey]; fileCipher == nil {
+		stream.Close()
 		return nil, goaterr.Errorf("Unknow cipher for %v key", ckey)
 	}
 	return fileCipher.DecryptReader(key, stream)
@@ -56,6 +59,7 @@ func (c Cipher) DecryptReader(key []byte, stream filesystem.Reader) (reader file
 // EncryptWriter create encrypt stream for AES GCM
 func (c Cipher) EncryptWriter(key []byte, stream filesystem.Writer) (writer filesystem.Writer, err error) {
 	if _, err = stream.Write(c.defaultCiperKey.ToBinary()); err != nil {
+		stream.Close()
 		return nil, err
 	}
 	return c.defaultCiper.EncryptWriter(key, stream)
